@@ -8,10 +8,12 @@ CONSTANTS
   R = 2
   T = 4
   H = 3
-  MaxNow = 9
-  MaxNet = 2
+  MaxNow = 7
+  MaxNet = 1
+  MaxRxq = 2
+  MaxGwResend = 1
   DupBudget = 0
-  LossBudget = 1
+  LossBudget = 0
   InjBudget = 0
   AdvReq = FALSE
   GwFaultBudget = 1
